@@ -20,7 +20,11 @@ ASSUMPTIONS = [
 
 def bad_bodies(enc):
     bm = bitmap_bytes
-    e = lambda s: s.encode(enc)
+    def e(s):
+        try:
+            return s.encode(enc)
+        except UnicodeEncodeError:
+            return s.encode('latin_1')          # kinds with characters outside the codec are not used under that codec
     return {
         'bad-mti': e('12X0') + bm([2]) + e('0512345'),
         'unknown-bit': e('1240') + bm([2, 7]) + e('0512345'),
@@ -42,6 +46,7 @@ def bad_bodies(enc):
         'unknown-bit-primary-bitmap-only': e('1240') + bm([7], False) + e('0512345'),
         'bad-value-primary-bitmap-only': e('1240') + bm([4], False) + e('00000000ABCD'),
         'unknown-bit-no-low-elements': e('1240') + bm([9 + 2], False) + e('12345678'),
+        'undecodable-mti': b'\xff\xfe12' + bm([2]) + e('0512345'),
     }
 
 
@@ -84,7 +89,10 @@ def fault(nmax, kinds, enc, blocked):
                 goods.append(None)
             else:
                 msg, elems = _good(i, enc, 800 if 'truncated' in kinds else 300)
-                body = iso.dumps(dict(msg), encoding=enc)
+                try:
+                    body = iso.dumps(dict(msg), encoding=enc)
+                except UnicodeEncodeError:
+                    raise core.PathAbort('good record not representable in the codec of this obligation')
                 w.write(body)
                 goods.append((msg, elems, body))
         w.close()
@@ -323,6 +331,8 @@ def obligations(tier):
                           'n in 1..%d records, every k, truncated record (every cut offset inside the body) and oversize length (6001..2^32-1)' % nmax, _funcs))
             obs.append(Ob('message/' + tag, fault(nmax, msgkinds, enc, blocked), 600,
                           'n in 1..%d records, every k, message-level faults %s' % (nmax, msgkinds), _funcs))
+    obs.append(Ob('message/ascii/vbs', fault(2 if q else 3, ['undecodable-mti', 'bad-mti', 'bad-pds', 'bad-typed-value'], 'ascii', False), 600,
+                  'reader with the strict ascii codec: a record whose MTI bytes cannot be decoded (and three other kinds), every k', _funcs))
     for blocked in (False, True):
         obs.append(Ob('configured-max/%s' % ('1014' if blocked else 'vbs'), configured_max(blocked), 300,
                       'MAX_VBS_RECORD_LENGTH changed at run time: lowered to 300 with a second record of 223..923 bytes; raised to 10000 with a second record '
